@@ -90,6 +90,24 @@ REAL_TRI = [0.0, 5e-324, 0.5, 1 - 2.0 ** -53, 1.0, 1 + U, 2.0, 3.0, 1e308, INF]
 VIT_TRI = [-INF, -1e308, -3.0, -1.0, -5e-324, 0.0, 5e-324, 1.0, 1 + U, 3.0, 1e308, INF]
 LOG_TRI = [-INF, -50.0, -1.0, math.log(0.5), 0.0, math.log(2), 1.0, 50.0, INF]
 
+_BASE_GRIDS = dict(REAL_GRID=list(REAL_GRID), VIT_GRID=list(VIT_GRID), LOG_GRID=list(LOG_GRID),
+                   REAL_TRI=list(REAL_TRI), VIT_TRI=list(VIT_TRI), LOG_TRI=list(LOG_TRI))
+def make_grids(tier, seed):
+    """quick: the fixed grids above.  thorough: plus seeded random binary64 values over the whole exponent range
+    (Real: positive; Viterbi: both signs; Log: log-space values in [-700, 700])"""
+    g = {k: list(v) for k, v in _BASE_GRIDS.items()}
+    if tier != "thorough": return g
+    rng = random.Random(seed * 1000003 + 8)
+    def rpos(): return math.ldexp(1 + rng.random(), rng.choice([rng.randint(-1074, 1022), rng.randint(-60, 60)]))
+    g["REAL_GRID"] += [rpos() for _ in range(6)]
+    g["VIT_GRID"] += [rng.choice([-1, 1]) * rpos() for _ in range(6)]
+    g["LOG_GRID"] += [rng.uniform(-700, 700) for _ in range(3)] + [rng.uniform(-3, 3) for _ in range(3)]
+    g["REAL_TRI"] += [rpos() for _ in range(3)]
+    g["VIT_TRI"] += [rng.choice([-1, 1]) * rpos() for _ in range(3)]
+    g["LOG_TRI"] += [rng.uniform(-60, 60) for _ in range(2)]
+    for k in g: g[k] = sorted(set(g[k]))
+    return g
+
 _EXPCACHE = {}
 def exp_q(x, up=None):
     """e^x as a Fraction with >= 45 correct significant digits *of e^x - 1 as well* (so that
@@ -121,6 +139,7 @@ def log_result(r, *inputs, k=8):
     if r != r: return (3, Fraction(0), Fraction(0))
     if r == INF: return (2, Fraction(0), Fraction(0))
     if r == -INF: return (0, Fraction(0), Fraction(0))
+    if abs(r) > 1e5: return (3, Fraction(0), Fraction(0))    # no legitimate result of in-range operands; e^r is not writable
     mag = abs(Fraction(r)) + sum(abs(Fraction(float(v))) for v in inputs if abs(float(v)) != INF)
     t = Fraction(k) * Fraction(2) ** -52 * mag
     return (1, exp_q(Fraction(r) - t, up=False), exp_q(Fraction(r) + t, up=True))
@@ -632,7 +651,7 @@ def part_pt(ctx, SR, tables):
     import fggs.indices as ind
     n_checked = 0
     pt_log = {}
-    shifts = (0, 1, 5) if ctx.tier == "quick" else tuple(range(0, 16, 1))
+    shifts = (0, 1, 5) if ctx.tier == "quick" else (0, 1, 2, 3, 5, 7, 11, 13)
     for sr, grid in ((0, REAL_GRID), (1, LOG_GRID), (2, VIT_GRID), (3, None)):
         S = SR[sr]
         if sr == 3:
@@ -748,6 +767,7 @@ def run(tier, seed):
     import torch
     ctx = Ctx(tier, seed)
     SR = _semirings()
+    globals().update(make_grids(tier, seed))       # the grids the parts below iterate over (module constants for quick)
     import time, sys, os
     timings = {}
     def timed(name, f, *a):
@@ -812,6 +832,28 @@ def replay(path):
         code = run_coq(LAW, [(sr, n, (wire(x), wire(y), wire(z)), (wire(float(l)), wire(float(rr))))], tag="replay")[0]
         print("%s law '%s' at %r %r %r: lhs=%r rhs=%r; verdict code %d" % (SRNAME[sr], LAWNAME[n], x, y, z, float(l), float(rr), code))
         return 1 if code else 0
+    if kind == "pt":
+        import torch
+        import fggs.indices as ind
+        sr, op = c["sr"], c["op"]
+        S = SR[sr]
+        grid = {0: REAL_GRID, 1: LOG_GRID, 2: VIT_GRID}.get(sr)
+        base = torch.tensor([False, True, True, False, True, False, False, True]) if sr == 3 else _t(grid)
+        dx, dy = c["x_default"], c["y_default"]
+        if sr != 3: dx, dy = fl(dx), fl(dy)
+        px = dict(p for l in _pt_variants(base, dx, 0, torch, ind).values() for p in l)[c["x_pattern"]]
+        py = dict(p for l in _pt_variants(base, dy, c["shift"], torch, ind).values() for p in l)[c["y_pattern"]]
+        want = _apply(S, op, px.to_dense(), py.to_dense())
+        try:
+            got = _apply(S, op, px, py)
+            got = got.to_dense() if isinstance(got, ind.PatternedTensor) else got
+        except Exception as e:
+            print("%s.%s on PatternedTensors (%s default %r, %s default %r) raised %r; dense result:\n%s" % (SRNAME[sr], OPNAME[op], c["x_pattern"], dx, c["y_pattern"], dy, e, want))
+            return 1
+        full = torch.broadcast_shapes(got.shape, want.shape)
+        same = torch.equal(torch.broadcast_to(got, full).nan_to_num(nan=12345.), torch.broadcast_to(want, full).nan_to_num(nan=12345.))
+        print("patterned result:\n%s\ndense result:\n%s\nidentical as numbers: %s (ulp-level differences of logaddexp are judged in Coq by bin/check)" % (got, want, same))
+        return 0 if same else 1
     print("replay of %r cases: re-run bin/check C08 quick (deterministic grids)" % kind)
     return 1
 
